@@ -6,3 +6,17 @@ open RV.C18
 #print axioms history_refines_spec
 #print axioms two_wrappers_disjoint
 #print axioms buggy_add_breaks_rollback
+#print axioms code_history_refines_spec
+#print axioms code_rollback_restores
+#print axioms code_boundaries_and_frames
+#print axioms code_model_agrees_with_abstract
+#print axioms falsy_graph_name_witness
+#print axioms binding_survives_rollback
+#print axioms nested_outer_refines_spec
+#print axioms nested_inner_rollback_restores
+#print axioms contexts_kept_by_rollback
+#print axioms new_graph_name_survives_rollback
+#print axioms code_two_wrappers_disjoint
+#print axioms graph_level_history_refines_spec
+#print axioms graph_level_ops_meaning
+#print axioms conjunctive_context_broke_rollback
